@@ -266,88 +266,124 @@ pub fn has_process_ops(bc: &Bytecode) -> bool {
 }
 
 pub struct SystemRun {
-    /// the program the worker's executor runs: `Environment::get_program()` after the REPL line
+    /// the program the worker's executor runs: `Environment::get_program()` after the last line
     /// was merged
     pub program: Bytecode,
-    /// per process: the instruction trace of that process
+    /// the REPL process: one trace per submitted line that ran (each line is a fresh entry on the
+    /// persistent process)
+    pub repl_lines: Vec<Trace>,
+    /// every other process: its instruction trace (continuing across lines)
     pub traces: std::collections::BTreeMap<usize, Trace>,
+    /// outcome of the last line that ran
     pub outcome: String,
+    pub lines_run: usize,
     /// trace segments that could not be attributed to a process
     pub unattributed: usize,
 }
 
-/// Evaluate `src` as a REPL line in the full system (real `Environment` + one real `Worker`,
-/// single-threaded deterministic simulator `qverif::sim`), recording the instruction trace *per
-/// process*: every worker step is split into "handle commands, execute nothing" (time slice 0)
-/// and "execute the front of the run queue" (no command visible), so the process that runs is
-/// known before the step.
+/// Evaluate `src` as a REPL line in the full system (see `run_session_traced`).
 pub fn run_system_traced(src: &str, b: &Builtins, max_rounds: usize) -> Result<SystemRun, String> {
+    run_session_traced(&[src.to_string()], b, max_rounds)
+}
+
+/// Evaluate `lines` one after the other as REPL lines in the full system (real `Environment` + one
+/// real `Worker`, single-threaded deterministic simulator `qverif::sim`), recording the
+/// instruction trace *per process*: every worker step is split into "handle commands, execute
+/// nothing" (time slice 0) and "execute the front of the run queue" (no command visible), so the
+/// process that runs is known before the step. The next line is submitted only when no process is
+/// runnable (the REPL's own bookkeeping rounds then execute nothing untraced).
+pub fn run_session_traced(lines: &[String], b: &Builtins, max_rounds: usize) -> Result<SystemRun, String> {
     use qverif::sim::{Choice, Sim};
-    let src = src.to_string();
+    let lines = lines.to_vec();
     let b = b.clone();
     catch(move || {
         let mut sim = Sim::new(1, None, b, false).with_repl(HashMap::new());
-        let req = match sim.submit(&src) {
-            Ok(Some(id)) => id,
-            Ok(None) => return Err("no code".to_string()),
-            Err(_) => return Err("rejected".to_string()),
-        };
         let mut traces: std::collections::BTreeMap<usize, Trace> = Default::default();
+        let mut repl_lines: Vec<Trace> = vec![];
         let mut unattributed = 0usize;
         let mut outcome = "budget".to_string();
-        let mut idle_rounds = 0;
-        for _ in 0..max_rounds {
-            if let Some(r) = sim.poll_result(req) {
-                outcome = match r {
-                    Ok(_) => "value".to_string(),
-                    Err(e) => format!("error:{}", error_detail(&e)),
-                };
+        let mut lines_run = 0usize;
+        for (li, src) in lines.iter().enumerate() {
+            if li > 0 && !sim.idle() {
                 break;
             }
-            sim.step(Choice::Env { visible: vec![usize::MAX] });
-            // commands only
-            sim.quantum = Some(0);
-            sim.step(Choice::Worker { i: 0, visible: usize::MAX });
-            // settle expired time-outs into the queue
-            sim.step(Choice::Worker { i: 0, visible: 0 });
-            sim.quantum = None;
-            let pid = sim.workers[0].verif_executor().verif_queue().first().copied();
-            quiver_core::executor::verif::set_trace(Some(vec![]));
-            sim.step(Choice::Worker { i: 0, visible: 0 });
-            let seg = quiver_core::executor::verif::take_trace().unwrap_or_default();
-            quiver_core::executor::verif::set_trace(None);
-            if !seg.is_empty() {
-                match pid {
-                    Some(pid) => traces.entry(pid).or_default().extend(seg),
-                    None => unattributed += 1,
-                }
-            }
-            if !sim.faults.is_empty() {
-                outcome = format!("fault:{}", sim.faults[0].2.lines().next().unwrap_or(""));
-                break;
-            }
-            if sim.idle() {
-                match sim.next_timeout() {
-                    Some(t) => {
-                        let ms = t.saturating_sub(sim.time_ms).max(1);
-                        sim.step(Choice::Tick { ms });
-                        idle_rounds = 0;
+            let req = match sim.submit(src) {
+                Ok(Some(id)) => id,
+                Ok(None) => {
+                    if li == 0 {
+                        return Err("no code".to_string());
                     }
-                    None => {
-                        idle_rounds += 1;
-                        if idle_rounds > 6 {
-                            outcome = "quiescent".to_string();
-                            break;
+                    continue;
+                }
+                Err(_) => {
+                    if li == 0 {
+                        return Err("rejected".to_string());
+                    }
+                    break;
+                }
+            };
+            let repl_pid = sim.repl.as_ref().map(|r| r.process_id()).unwrap_or(0);
+            repl_lines.push(vec![]);
+            lines_run += 1;
+            outcome = "budget".to_string();
+            let mut idle_rounds = 0;
+            for _ in 0..max_rounds {
+                if let Some(r) = sim.poll_result(req) {
+                    outcome = match r {
+                        Ok(_) => "value".to_string(),
+                        Err(e) => format!("error:{}", error_detail(&e)),
+                    };
+                    break;
+                }
+                sim.step(Choice::Env { visible: vec![usize::MAX] });
+                // commands only
+                sim.quantum = Some(0);
+                sim.step(Choice::Worker { i: 0, visible: usize::MAX });
+                // settle expired time-outs into the queue
+                sim.step(Choice::Worker { i: 0, visible: 0 });
+                sim.quantum = None;
+                let pid = sim.workers[0].verif_executor().verif_queue().first().copied();
+                quiver_core::executor::verif::set_trace(Some(vec![]));
+                sim.step(Choice::Worker { i: 0, visible: 0 });
+                let seg = quiver_core::executor::verif::take_trace().unwrap_or_default();
+                quiver_core::executor::verif::set_trace(None);
+                if !seg.is_empty() {
+                    match pid {
+                        Some(pid) if pid == repl_pid => repl_lines.last_mut().unwrap().extend(seg),
+                        Some(pid) => traces.entry(pid).or_default().extend(seg),
+                        None => unattributed += 1,
+                    }
+                }
+                if !sim.faults.is_empty() {
+                    outcome = format!("fault:{}", sim.faults[0].2.lines().next().unwrap_or(""));
+                    break;
+                }
+                if sim.idle() {
+                    match sim.next_timeout() {
+                        Some(t) => {
+                            let ms = t.saturating_sub(sim.time_ms).max(1);
+                            sim.step(Choice::Tick { ms });
+                            idle_rounds = 0;
+                        }
+                        None => {
+                            idle_rounds += 1;
+                            if idle_rounds > 6 {
+                                outcome = "quiescent".to_string();
+                                break;
+                            }
                         }
                     }
+                } else {
+                    idle_rounds = 0;
                 }
-            } else {
-                idle_rounds = 0;
+            }
+            if outcome != "value" {
+                break;
             }
         }
         quiver_core::executor::verif::set_quantum_override(None);
         let program = sim.env.get_program().to_bytecode(None);
-        Ok(SystemRun { program, traces, outcome, unattributed })
+        Ok(SystemRun { program, repl_lines, traces, outcome, lines_run, unattributed })
     })
     .unwrap_or_else(|p| Err(format!("panic: {}", p.lines().next().unwrap_or(""))))
 }
@@ -437,6 +473,17 @@ pub struct FrameSample {
 /// Replays the trace against the inferred annotations, reconstructing each frame's entry base
 /// (stack length at function entry minus the argument).
 pub fn check_trace(functions: &[Function], anns: &[Vec<Option<Ann>>], trace: &Trace) -> TraceCheck {
+    check_trace_from(functions, anns, trace, None)
+}
+
+/// `entry_locals`: locals count the first frame starts with (a REPL continuation line starts with
+/// the session's variables; everything else with its captures).
+pub fn check_trace_from(
+    functions: &[Function],
+    anns: &[Vec<Option<Ann>>],
+    trace: &Trace,
+    entry_locals: Option<usize>,
+) -> TraceCheck {
     let mut shadow: Vec<Shadow> = vec![];
     let mut res = TraceCheck { points: 0, max_depth: 0, mismatch: None, misaligned: None, stores_checked: 0, tailcalls: vec![], samples: vec![], loop_head_drift: None, reentries: 0, steps: HashMap::new(), select_filter_calls: 0 };
     let sample_every = (trace.len() / 150).max(1);
@@ -466,7 +513,7 @@ pub fn check_trace(functions: &[Function], anns: &[Vec<Option<Ann>>], trace: &Tr
                 res.mismatch = Some((0, "empty stack at process entry".into()));
                 return res;
             }
-            shadow.push(Shadow { f, base: s - 1, pc: 0, sel: 0, l: functions[f].captures, entry: (s, l), entry_f: f });
+            shadow.push(Shadow { f, base: s - 1, pc: 0, sel: 0, l: entry_locals.unwrap_or(functions[f].captures), entry: (s, l), entry_f: f });
         } else {
             // the previous point executed the instruction at the top shadow frame
             let (pf, ppc, _ps, _pl) = trace[k - 1];
